@@ -1,5 +1,6 @@
 """C02 — point lookups agree with the inserted map for every probe (structural part)."""
 from paths import explore
+import stdalg
 from sym import fmt, walk
 from callgraph import CallGraph
 from rules.common import path_calls, ret_kind
@@ -52,14 +53,14 @@ def r02_1(ctx):
         N = nodes[0]
         hit = miss = step = 0
         for p in explore(f, max_visits=1, havoc=True):
-            fi = [d for d in p.decisions if d[2][0] == 'discr' and is_call(d[2][1], '::find_input')]
+            fi = [d for d in p.cdecisions() if d[2][0] == 'discr' and is_call(d[2][1], '::find_input')]
             if p.end == 'cut' and fi and fi[-1][3] == 1:
                 step += 1
                 fcall = fi[-1][2][1]
                 ok_probe = is_head(fcall[2][0], {N}) and any(is_call(x, '::next') for x in walk(fcall[2][1]))
                 endk = (len(p.blocks) - 2, 'T')
                 vn = p.sym.loc_value_at((N,), endk)
-                i_expr = norm(('field', ('variant', fcall, 'Some'), '0'))
+                i_expr = norm(stdalg.canon_value(('field', ('variant', fcall, 'Some'), '0')))
                 tgt = None
                 if is_call(vn, '::node'):
                     a = vn[2][1]
@@ -67,18 +68,20 @@ def r02_1(ctx):
                         tgt = a[1]
                     elif is_call(a, '::transition_addr'):
                         tgt = a
-                ok_node = tgt is not None and is_head(tgt[2][0], {N}) and norm(tgt[2][1]) == i_expr
+                ok_node = tgt is not None and is_head(tgt[2][0], {N}) and norm(stdalg.canon_value(tgt[2][1])) == i_expr
                 ok_out = True
                 if kind == 'get' and outs:
                     vo = p.sym.loc_value_at((outs[0],), endk)
                     ok_out = is_call(vo, 'Output::cat') and is_head(vo[2][0], {outs[0]}) and vo[2][1][0] == 'field' and vo[2][1][2] == 'out' and is_call(vo[2][1][1], '::transition') and \
-                        is_head(vo[2][1][1][2][0], {N}) and norm(vo[2][1][1][2][1]) == i_expr
+                        is_head(vo[2][1][1][2][0], {N}) and norm(stdalg.canon_value(vo[2][1][1][2][1])) == i_expr
                 ctx.check(R, ok_probe and ok_node and ok_out, kind + ':step', 'a lookup step must look the probe byte up in the current node, move to the target of THAT transition%s' % (' and add its output' if kind == 'get' else ''), fn=f,
                           detail={'node': fmt(vn)[:100]})
             elif p.end == 'return' and fi and fi[-1][3] == 0:
                 miss += 1
                 rv = p.ret()
                 ok = (rv[0] == 'agg' and rv[1].endswith('::None')) if kind == 'get' else rv == ('const', 0)
+                if kind == 'get' and not ok and is_call(rv, '::from_residual') and 'option::Option' in rv[1]:
+                    ok = True       # `find_input(b)?` in a function returning Option: the residual of None is None
                 ctx.check(R, ok, kind + ':miss', 'a probe byte without transition must end the lookup with %s' % ('None' if kind == 'get' else 'false'), fn=f)
             elif p.end == 'return' and not fi:
                 rv = p.ret()
